@@ -357,6 +357,18 @@ func Catalogue(prop, tier string) []Cfg {
 			c = jc("join2", 2, false, 1, 3, 4, 25, []int64{0, 5}, []int64{0, 2}, nil)
 			c.Late, c.Horizon = 1, 30
 			add(c)
+			if !quick {
+				for _, disc := range []string{"join2", "unite2", "join1"} {
+					add(jc(disc, 3, false, 2, 8, 4, 25, []int64{0, 1, 5}, []int64{0, 3, 6}, nil))
+					add(jc(disc, 3, true, 1, 7, 4, 50, []int64{0, 3}, []int64{0, 2}, []int64{0, 3, 6}))
+					c := jc(disc, 2, true, 1, 4, 4, 25, []int64{0, 5}, []int64{0}, []int64{0, 5})
+					c.Late, c.Horizon = 2, 30
+					add(c)
+					c = jc(disc, 2, false, 1, 4, 4, 25, []int64{0, 5}, []int64{0, 2}, nil)
+					c.Late, c.Horizon = 2, 30
+					add(c)
+				}
+			}
 			for _, stop := range []string{"stop", "cancel"} {
 				for _, mode := range []string{"", "norelease"} {
 					c := jc("join1", 2, true, 1, 4, 4, 25, []int64{0, 5}, []int64{0}, []int64{0, 5})
@@ -414,6 +426,28 @@ func Catalogue(prop, tier string) []Cfg {
 				c := jc(disc, 2, false, 2, 4, 8, 25, []int64{0, 1, 5, 9}, []int64{0}, []int64{0})
 				c.Mode, c.Tail = "flush", 20
 				add(c)
+				// the whole range of TimeoutInaccuracy: divider 100, 10, 3, 2, 1
+				for _, tc := range []struct {
+					t     int64
+					inacc uint
+				}{{100, 1}, {10, 10}, {6, 33}, {6, 34}, {5, 51}, {5, 99}} {
+					if quick && tc.t == 100 && disc != "join2" {
+						continue
+					}
+					c = jc(disc, 3, false, 1, 2, tc.t, tc.inacc, []int64{0, 1, tc.t - 1}, []int64{0}, []int64{0})
+					c.Mode, c.Tail = "flush", 2*tc.t+3
+					add(c)
+				}
+				if !quick {
+					for _, nocopy := range []bool{false, true} {
+						c = jc(disc, 4, nocopy, 2, 6, 8, 25, []int64{0, 1, 3, 9}, []int64{0}, []int64{0})
+						c.Mode, c.Tail = "flush", 24
+						add(c)
+						c = jc(disc, 3, nocopy, 0, 5, 5, 50, []int64{0, 2, 6}, []int64{0}, []int64{0})
+						c.Mode, c.Tail = "flush", 15
+						add(c)
+					}
+				}
 				// a trickle aligned with the ticker that never fills JoinSize, buffered input
 				for _, nocopy := range []bool{false, true} {
 					c = jc(disc, 9, nocopy, 2, 7, 4, 25, []int64{0, 1}, []int64{0}, []int64{0})
